@@ -450,3 +450,146 @@ func init() {
 		return map[string]interface{}{"id": "randfa-" + itoa(i), "raw": raw}
 	}
 }
+
+func init() {
+	// variants: random genome, random coding features (either strand, 1-3 segments, any codon_start), random queries
+	randGens["variants"] = func(rng *rand.Rand, i int) map[string]interface{} {
+		L := 30 + rng.Intn(40)
+		genome := randSeq(rng, L, 0.0)
+		nf := 1 + rng.Intn(3)
+		feats := []interface{}{}
+		for f := 0; f < nf; f++ {
+			// 1-3 disjoint ascending segments inside the genome
+			nseg := 1 + rng.Intn(3)
+			cuts := map[int]bool{}
+			for len(cuts) < 2*nseg {
+				cuts[1+rng.Intn(L)] = true
+			}
+			var cs []int
+			for c := range cuts {
+				cs = append(cs, c)
+			}
+			sortInts(cs)
+			var segs [][2]int
+			total := 0
+			for k := 0; k+1 < len(cs); k += 2 {
+				segs = append(segs, [2]int{cs[k], cs[k+1]})
+				total += cs[k+1] - cs[k] + 1
+			}
+			cstart := 1 + rng.Intn(3)
+			// make (total - (cstart-1)) a multiple of three by shortening the last segment (3'-most in genome order)
+			for (total-(cstart-1))%3 != 0 || total-(cstart-1) <= 0 {
+				last := &segs[len(segs)-1]
+				if last[1] > last[0] {
+					last[1]--
+					total--
+				} else if len(segs) > 1 {
+					segs = segs[:len(segs)-1]
+					total--
+				} else {
+					cstart = 1
+					if last[1]+1 <= L {
+						last[1]++
+						total++
+					} else {
+						last[0]--
+						total++
+					}
+				}
+				if total < 3 {
+					segs = [][2]int{{1, 3}}
+					total, cstart = 3, 1
+				}
+			}
+			strand := 1
+			if rng.Intn(2) == 0 {
+				strand = -1
+			}
+			if total-(cstart-1) > 60 { // the validator looks at up to 20 codons
+				continue
+			}
+			// GFF3: the phase of a row is smaller than the row; keep the 5'-most segment at least 3 bases long
+			first := segs[0]
+			if strand == -1 {
+				first = segs[len(segs)-1]
+			}
+			if first[1]-first[0]+1 < 3 {
+				continue
+			}
+			// translation order: reverse strand lists the segments from the highest coordinates down
+			order := make([]interface{}, 0, len(segs))
+			if strand == 1 {
+				for _, s := range segs {
+					order = append(order, []interface{}{s[0], s[1]})
+				}
+			} else {
+				for k := len(segs) - 1; k >= 0; k-- {
+					order = append(order, []interface{}{segs[k][0], segs[k][1]})
+				}
+				// codon_start counts from the 5' end of the transcript: with the shortening above the length rule still holds
+			}
+			feats = append(feats, map[string]interface{}{"name": "g" + itoa(f+1), "kind": "CDS", "named": true, "strand": strand,
+				"segs": order, "cstart": cstart, "gbform": rng.Intn(2)})
+		}
+		// reference row with a few gap blocks; queries fill them with bases or gaps
+		type gap struct{ after, n int }
+		var gaps []gap
+		for k := rng.Intn(3); k > 0; k-- {
+			gaps = append(gaps, gap{rng.Intn(L + 1), 1 + rng.Intn(3)})
+		}
+		row := func(seq string, fill func() byte) string {
+			var b []byte
+			for p := 0; p <= L; p++ {
+				for _, g := range gaps {
+					if g.after == p {
+						for j := 0; j < g.n; j++ {
+							b = append(b, fill())
+						}
+					}
+				}
+				if p < L {
+					b = append(b, seq[p])
+				}
+			}
+			return string(b)
+		}
+		R := row(genome, func() byte { return '-' })
+		nq := 3 + rng.Intn(10)
+		qs := make([]interface{}, nq)
+		for k := range qs {
+			s := []byte(genome)
+			for m := rng.Intn(5); m > 0; m-- {
+				p := rng.Intn(L)
+				switch rng.Intn(6) {
+				case 0:
+					s[p] = "RYKMSWN"[rng.Intn(7)]
+				case 1:
+					s[p] = '-'
+					if p+1 < L && rng.Intn(2) == 0 {
+						s[p+1] = '-'
+					}
+				default:
+					s[p] = "ACGT"[rng.Intn(4)]
+				}
+			}
+			ins := rng.Intn(3) == 0
+			qs[k] = symList(row(string(s), func() byte {
+				if ins {
+					return "ACGT"[rng.Intn(4)]
+				}
+				return '-'
+			}))
+		}
+		run := func(cmd, anno string, app bool, s, e int, agg bool, thr, t int) map[string]interface{} {
+			return map[string]interface{}{"cmd": cmd, "anno": anno, "append": app, "s": s, "e": e, "agg": agg, "thr": thr, "t": t, "stdin": false}
+		}
+		ws := 1 + rng.Intn(L)
+		we := ws + rng.Intn(L-ws+1)
+		runs := []interface{}{run("variants", "gb", false, -1, -1, false, 0, 1), run("variants", "gb", true, -1, -1, false, 0, 3),
+			run("variants", "gff", true, -1, -1, false, 0, 2), run("variants", "gff", false, -1, -1, false, 0, 1),
+			run("samvar", "gb", true, -1, -1, false, 0, 2), run("topa-variants", "gb", true, -1, -1, false, 0, 1), run("samvar", "gff", true, -1, -1, false, 0, 1),
+			run("variants", "gb", true, ws, we, false, 0, 1), run("variants", "gb", true, ws, -1, false, 0, 1), run("samvar", "gb", true, -1, we, false, 0, 1),
+			run("variants", "gb", true, -1, -1, true, []int{0, 100, 250, 500}[rng.Intn(4)], 2)}
+		return map[string]interface{}{"id": "randvar-" + itoa(i), "kind": "anno", "R": symList(R), "qs": qs, "feats": feats, "runs": runs}
+	}
+}
